@@ -30,7 +30,7 @@ def flat(prog, lim=1000000):
 
 
 def hist_cfg(maxlen, maxdim, ill, coef, opset, recipe=False, shape="poly"):
-    ops = "{" + ", ".join('"%s"' % o for o in sorted(opset)) + "}" if opset else None
+    ops = "{" + ", ".join('"%s"' % o for o in sorted(opset)) + "}" if opset and opset != "copy" else None
     return """CONSTANTS MaxLen = %d
  Slots = {1,2,3}
  MaxDim = %d
@@ -42,7 +42,7 @@ def hist_cfg(maxlen, maxdim, ill, coef, opset, recipe=False, shape="poly"):
 SPECIFICATION Spec
 CONSTRAINT EmitProg
 CHECK_DEADLOCK FALSE
-""" % (maxlen, maxdim, ill, coef, ("= " + ops) if ops else "<- AllOps", "TRUE" if recipe else "FALSE", shape)
+""" % (maxlen, maxdim, ill, coef, ("= " + ops) if ops else "<- CopyRecipeOps" if opset == "copy" else "<- AllOps", "TRUE" if recipe else "FALSE", shape)
 
 
 def crash_class(op):
@@ -120,6 +120,9 @@ def run_pool(run, prop, plans, keep_prefixes, label="poly", exe=None, trace_mod=
                 nops = sum(1 for l in r["events"][:r["index"]] if l.startswith('{"e":"Op"'))
                 op = r["prog"][nops]["op"] if nops < len(r["prog"]) else "?"
                 why = "%s:%s" % ("C20" if prop == "C20" else crash_class(op), r["op"].lower())
+            if prop == "C13" and why == "C01:OK()" and op in POOL:
+                # the object produced by a copy / assignment / swap fails the class invariant: the copy is not a value at all
+                why = "C13:copy-not-well-formed"
             if not any(why.startswith(p) for p in keep_prefixes) and not os.environ.get("VERIF_ALL"):
                 continue
             ev = None
